@@ -144,12 +144,12 @@ VMerge(e) ==
        ELSE "ok"
 
 (* C17: separated steps commute after rebasing *)
-SeparatedSteps(a, b) == LET ta == Touched(a)  tb == Touched(b) IN
+SeparatedSteps(a, b, d) == LET ta == TouchedIn(a, d)  tb == TouchedIn(b, d) IN
   ta[1] <= ta[2] /\ tb[1] <= tb[2] /\ (ta[2] + 1 <= tb[1] \/ tb[2] + 1 <= ta[1])
 VCommute(e) == LET d == Docs[e.di] IN
   IF ~DocOKTab[e.di] \/ ~StepPre(d, e.a) \/ ~StepPre(d, e.b) THEN "skip:pre"
   ELSE IF e.ra.kind # "ok" \/ e.rb.kind # "ok" THEN "skip:notapplied"
-  ELSE IF ~SeparatedSteps(e.a, e.b) THEN "skip:notseparated"
+  ELSE IF ~SeparatedSteps(e.a, e.b, d) THEN "skip:notseparated"
   ELSE IF e.am.type = "none" \/ e.bm.type = "none" THEN "bad:DroppedByRebase"
   ELSE IF e.ab.kind # "ok" \/ e.ba.kind # "ok" THEN "bad:RebasedDoesNotApply"
   ELSE IF e.about # e.baout THEN "bad:Diverged"
